@@ -45,7 +45,8 @@ def _own_floors(tier):
     return {"compile:runs": 3000, "compile:ops_observed": 20000, "backend:StabilizerCompiler": 1000, "backend:DensityMatrixCompiler": 1000,
             "measure:random": 100, "measure:deterministic": 100, "outcome:0": 100, "outcome:1": 100, "shape:gate_after_reset": 20,
             "setting:0": 500, "setting:1": 500, "setting:probabilistic": 500, "initial_state:given": 200, "programs:with_insert_at": 100,
-            "kind:MR": 100, "kind:MZ": 100, "kind:cCNOT": 50, "kind:cCZ": 50, "kind:W": 200, "kind:CZ": 100, "programs:one_qubit": 5, "programs:large_n": 30}
+            "kind:MR": 100, "kind:MZ": 100, "kind:cCNOT": 50, "kind:cCZ": 50, "kind:W": 200, "kind:CZ": 100, "programs:one_qubit": 5, "programs:large_n": 30,
+            "programs:with_noise_annotations": 150, "programs:wrapper_with_one_noise_object": 40}
 
 
 def gen_program(rng, nmax, lmax):
@@ -54,14 +55,14 @@ def gen_program(rng, nmax, lmax):
         n_e, n_p = int(rng.integers(2, 7)), int(rng.integers(4, 9))
         if rng.random() < 0.4:
             n_e, n_p = [(int(rng.integers(11, 13)), int(rng.integers(1, 4))), (int(rng.integers(1, 4)), int(rng.integers(11, 14)))][int(rng.integers(2))]   # two-digit register indices
-        return programs.random_program(rng, n_e, n_p, int(rng.integers(1, 4)), int(rng.integers(40, 3 * lmax + 1)))
+        return programs.random_program(rng, n_e, n_p, int(rng.integers(1, 4)), int(rng.integers(40, 3 * lmax + 1)), annotate_noise=0.1)
     while True:
         n_e, n_p = int(rng.integers(0, 4)), int(rng.integers(0, 4))
         if 1 <= n_e + n_p <= nmax:
             break
     n_c = int(rng.integers(0, 4))
     L = int(rng.integers(0, lmax + 1)) if rng.random() < 0.9 else 0
-    return programs.random_program(rng, n_e, n_p, n_c, L, grow_registers=(n_e + n_p <= nmax - 1))
+    return programs.random_program(rng, n_e, n_p, n_c, L, grow_registers=(n_e + n_p <= nmax - 1), annotate_noise=[0.0, 0.25][int(rng.integers(2))])
 
 
 def run_shard(spec, ctx):
@@ -113,6 +114,10 @@ def run_program(pseed, nmax, lmax, ctx, mon, state, only=None):
         ctx.count("programs:with_insert_at")
     if prog.n_q == 1:
         ctx.count("programs:one_qubit")
+    if any(o.noise is not None for o in prog.ops):
+        ctx.count("programs:with_noise_annotations")
+    if any(isinstance(o.noise, tuple) and o.noise[0] == "single" and len(o.gates) >= 2 for o in prog.ops):
+        ctx.count("programs:wrapper_with_one_noise_object")
     # gate after measure-and-reset on the same wire
     for w, ids in prog.wires.items():
         if w[0] in "ep":
